@@ -329,7 +329,7 @@ PROPS = {
                      "response tables are passed to the model inside each request (bit patterns of the built code's tables)"],
     ),
     "C01": dict(
-        lean_modules=["AlphaG.Props.C01", "AlphaG.Props.C08Names"],
+        lean_modules=["AlphaG.Props.C01", "AlphaG.Props.C08", "AlphaG.Props.C08Names"],
         required_theorems=["AlphaG.C01." + t for t in [
             "adc_total", "adc_no_overflow", "alpha16_ids_total", "chunk_total", "chunk_accessors_total", "pwb_total",
             "waveformAt_total", "decoded_chunk_valid", "pwbFromChunkBytes_total", "trg_total", "cbfifo_total",
